@@ -351,8 +351,10 @@ and every other theorem about `selectNpc` is thereby re-checked against the sour
 `<` into `<=`, of the `+ 1` or of the bound breaks this proof. -/
 theorem source_selectNpc : FDA.Generated.selectNpcSrc = selectNpc := by
   funext vals sel
+  have hb : FDA.Generated.floatBound = 1 := by unfold FDA.Generated.floatBound; norm_num
   unfold FDA.Generated.selectNpcSrc FDA.Generated.fracStrict FDA.Generated.fracOffset
-    FDA.Generated.floatBoundStrict FDA.Generated.floatBound
+    FDA.Generated.floatBoundStrict
+  rw [hb]
   exact selectNpc_eq_param vals sel
 
 /-! ### Gram route: the noise shift `G − σ²I` -/
@@ -495,6 +497,10 @@ example : (∀ x ∈ ([3, 2, 1] : List ℚ), 0 ≤ x) ∧ (0 : ℚ) < ([3, 2, 1]
   refine ⟨?_, ?_, ?_⟩ <;> norm_num
 
 example : (values [((3 : ℚ), ([0, 1] : List ℚ)), (2, [1, 0])]).Pairwise (fun a b => b ≤ a) := by
+  simp [values]; norm_num
+
+/-- `gram_shift_order`: a non-increasing spectrum. -/
+example : (values [((5 : ℚ), ([1] : List ℚ)), (2, [0])]).Pairwise (fun a b => b ≤ a) := by
   simp [values]; norm_num
 
 example : (values witness).Perm (values [((3 : ℚ), ([] : List ℚ)), (1, []), (2, [])]) := by
